@@ -620,9 +620,12 @@ def rule_snapshot_shares(ctx):
             if not takes_self:
                 continue    # a constructor: a new registry is right
             n += 1
-            env = A.ArmEnv(); env.strip = True; env.bind_params(h); env.absorb(h["body"])
+            env = A.ArmEnv(); env.bind_params(h); env.absorb(h["body"])
             sx = A.sexpr(fld["e"], env)
-            shared = re.match(r"^\((alloc::sync::Arc::<.*>::clone|<alloc::sync::Arc<.*> as core::clone::Clone>::clone) \(\. \$P0 files\)\)$", sx) is not None or sx == "(. $P0 files)"
+            # `self.files` moved, or a clone OF THE ARC (function or method form, with or without the borrow)
+            shared = sx == "(. $P0 files)" or re.match(
+                r"^\((<alloc::sync::Arc<[^()]*> as core::clone::Clone>::clone|alloc::sync::Arc::<[^()]*>::clone|\.clone) "
+                r"(\(& )?\(\. \$P0 files\)\)?\)$", sx) is not None
             ctx.check(shared, rule, "%s:files" % fn.split("::")[-1], "%s builds a CompilerSession whose `files` is %s: not the session's own "
                       "registry" % (fn, sx[:120]), [bd["loc"][0], x.get("ln")])
     derives = any(k.endswith("CompilerSession as core::clone::Clone>::clone") for k in facts.bodies())
